@@ -38,8 +38,10 @@ def gen_basis(rng, integer_only):
     r = rng.random()
     if r < 0.5:
         return {"k": "spin"}
-    if r < 0.8:
+    if r < 0.78:
         return {"k": "elec"}
+    if r < 0.84:
+        return {"k": "sho", "n": 1}         # a non-dummy basis set with a single basis function (size-1 axis)
     return {"k": "sho", "n": rng.choice([2, 3])}
 
 
@@ -65,7 +67,26 @@ def all_parent_arrays(nmax):
     return res
 
 
-def gen_tree_spec(rng, n=None, max_dense=1500, order=None):
+def boundary_shapes():
+    """boundary-size trees: every basis set with nbas == 1 (Hilbert space of dimension one), single-node trees, trees
+    mixing nbas == 1 non-dummy sets with dummy nodes and ordinary sets"""
+    one = {"k": "sho", "n": 1}
+    sp = {"k": "spin"}
+    return [([[]], [[dict(one)]]),
+            ([[]], [[dict(one), dict(one)]]),
+            ([[1], []], [[dict(one)], [dict(one)]]),
+            ([[1, 2], [], []], [[dict(one)], [], [dict(one), dict(one)]]),
+            ([[]], [[dict(one), dict(sp)]]),
+            ([[1], []], [[], [dict(one)]]),
+            ([[2, 1], [], []], [[], [dict(one)], [dict(sp), dict(one)]]),
+            ([[1], [2], []], [[dict(one)], [dict(sp)], []])]
+
+
+def gen_tree_spec(rng, n=None, max_dense=1500, order=None, nodes=None):
+    if nodes is not None:
+        order = [list(ch) for ch in order]
+        return {"order": order, "nodes": [[dict(d) for d in ds] for ds in nodes], "qn": False, "qntot": 0,
+                "m": rng.choice([1, 2, 3]), "seed": rng.randrange(1, 2 ** 31)}
     while True:
         nn = n if n is not None else rng.choice([1, 2, 3, 3, 3, 4, 4, 4, 5, 5, 6])
         if order is not None:
@@ -84,7 +105,8 @@ def gen_tree_spec(rng, n=None, max_dense=1500, order=None):
                 nodes.append([gen_basis(rng, False) for _ in range(k)])
         real = [d for ds in nodes for d in ds]
         if not real:
-            continue
+            nodes[rng.randrange(nn)] = [gen_basis(rng, False)]
+            real = [d for ds in nodes for d in ds]
         dim = 1
         for d in real:
             dim *= nbas(d)
@@ -171,8 +193,8 @@ def gen_terms(rng, spec, dofs, integer_only, nterms=None):
     return terms
 
 
-def gen_oracle_spec(rng, n=None, order=None):
-    spec = gen_tree_spec(rng, n, order=order)
+def gen_oracle_spec(rng, n=None, order=None, nodes=None):
+    spec = gen_tree_spec(rng, n, order=order, nodes=nodes)
     spec["terms"] = gen_terms(rng, spec, dofs_of(spec), False)
     keep = [[j for j in range(len(ds)) if rng.random() < 0.6] for ds in spec["nodes"]]
     spec["keep"] = keep
@@ -201,8 +223,8 @@ def gen_mps_spec(rng):
             "seed": rng.randrange(1, 2 ** 31), "terms": terms}
 
 
-def gen_tie_case(rng, n=None, order=None):
-    spec = gen_tree_spec(rng, n, max_dense=10 ** 9, order=order)
+def gen_tie_case(rng, n=None, order=None, nodes=None):
+    spec = gen_tree_spec(rng, n, max_dense=10 ** 9, order=order, nodes=nodes)
     spec["m"] = rng.choice([1, 2, 2, 3])
     spec["states"] = [{"seed": rng.randrange(1, 2 ** 31), "m": rng.choice([1, 2, 2, 3]), "coeff": rng.choice([1, 1, 1, 2, -3])}
                       for _ in range(rng.randint(2, 3))]
@@ -225,10 +247,10 @@ def gen_tie_case(rng, n=None, order=None):
     return spec
 
 
-def gen_env_case(rng, n=None):
+def gen_env_case(rng, n=None, order=None, nodes=None):
     """small trees for the expectation / RDM tie over the Gaussian integers"""
     while True:
-        spec = gen_tree_spec(rng, n if n is not None else rng.choice([1, 2, 3, 3, 4, 4, 5]), max_dense=300)
+        spec = gen_tree_spec(rng, n if n is not None else rng.choice([1, 2, 3, 3, 4, 4, 5]), max_dense=300, order=order, nodes=nodes)
         if sum(len(ds) for ds in spec["nodes"]) <= 6:
             break
     spec["state"] = {"seed": rng.randrange(1, 2 ** 31), "m": rng.choice([1, 2, 2])}
@@ -428,7 +450,9 @@ def failure_key(f):
     if "sites" not in spec:
         if chk in ("add", "add-op", "add-complex") and len(spec["order"]) == 1:
             return "ttns-add-single-node"
-        if chk == "todense-default" and any(not ds for ds in spec["nodes"]):
+        if chk in ("todense", "todense-default", "todense-order") and any(d.get("n") == 1 for ds in spec["nodes"] for d in ds):
+            return "ttns-todense-nbas1"
+        if chk in ("todense", "todense-default") and any(not ds for ds in spec["nodes"]):
             return "ttns-todense-dummy"
         if spec.get("qn") == 2 and spec.get("qn") is not True and chk in ("expectation", "expectation-complex", "expectation1", "norm", "norm-coeff", "normalize"):
             return "ttns-expectation-qn2"
@@ -463,6 +487,8 @@ def run(ctx):
     # the corpus: one-node tree, two-node tree, a dummy root, then random
     for n in (1, 1, 2, 2):
         cases.append(gen_tie_case(rng, n))
+    for o, nd in boundary_shapes():
+        cases.append(gen_tie_case(rng, order=o, nodes=nd))
     topo = all_parent_arrays(6) if thorough else all_parent_arrays(4)      # 154 resp. 10 recursive trees, exhaustively
     for o in topo:
         cases.append(gen_tie_case(rng, order=o))
@@ -586,7 +612,7 @@ def run(ctx):
     t_ = time.time()
     # 3b. exact tie of expectation values and RDMs over the Gaussian integers
     n_env = 400 if thorough else 36
-    ecases = [gen_env_case(rng, n) for n in (1, 2, 3)]
+    ecases = [gen_env_case(rng, n) for n in (1, 2, 3)] + [gen_env_case(rng, order=o, nodes=nd) for o, nd in boundary_shapes()]
     while len(ecases) < n_env:
         ecases.append(gen_env_case(rng))
     eshards = [ecases[i::nshard] for i in range(nshard)]
@@ -641,7 +667,7 @@ def run(ctx):
     t_ = time.time()
     # 4. dense oracle (always)
     n_or = 1200 if thorough else 80
-    specs = [gen_oracle_spec(rng, n) for n in (1, 1, 2, 2, 3)]
+    specs = [gen_oracle_spec(rng, n) for n in (1, 1, 2, 2, 3)] + [gen_oracle_spec(rng, order=o, nodes=nd) for o, nd in boundary_shapes()]
     for o in (all_parent_arrays(5) if thorough else []):
         specs.append(gen_oracle_spec(rng, order=o))
     while len(specs) < n_or:
